@@ -31,6 +31,7 @@ pub struct SessionExtMetadata { pub o: u8 }
 //@extract Session
 //@extract Oauth2Session
 //@extract ValueSetSession
+//@extract ValueSetOauth2Session
 // std BTreeSet<K> viewed as a set
 #[verifier::external_body] #[verifier::reject_recursive_types(K)] pub struct BTreeSet<K> { p: core::marker::PhantomData<K> }
 impl<K> View for BTreeSet<K> { type V = Set<K>; uninterp spec fn view(&self) -> Set<K>; }
@@ -133,6 +134,14 @@ impl SessionConsistency {
 }
 impl ValueSetSession {
 //@extract vss_remove
+}
+// the rs_uuid branch of ValueSetOauth2Session::remove (`values_mut().for_each(..)` with a closure capturing `&mut removed`: outside
+// the dialect) as a stand-in: every session of that resource server is revoked, nothing else changes (ASSUMED; read off the loop)
+#[verifier::external_body] pub fn kvx_revoke_by_rs(map: &mut BTreeMap<Uuid, Oauth2Session>, u: &Uuid, cid: &Cid) -> (r: bool)
+    ensures final(map)@.dom() == old(map)@.dom(),
+        forall|k: Uuid| #[trigger] old(map)@.contains_key(k) ==> (final(map)@[k] == old(map)@[k] || (final(map)@[k].state is RevokedAt && final(map)@[k].parent == old(map)@[k].parent && final(map)@[k].issued_at == old(map)@[k].issued_at)) { unimplemented!() }
+impl ValueSetOauth2Session {
+//@extract vso_remove
 }
 }
 fn main(){}
